@@ -666,6 +666,124 @@ def body_ideal_polygon(case, ctx):
                             ideal_norm=float(np.linalg.norm(M, 2)))
 
 
+# ---------------------------------------------------------------------------
+# law: half-plane polygons with a vertex exactly at the point at infinity
+@st.composite
+def inf_vertex_case(draw):
+    n = draw(st.integers(3, 6))
+    # finite vertices in half-plane coordinates, x strictly monotone (so that no edge between
+    # finite vertices is vertical), heights 0.3..2.5 or on the boundary (ideal)
+    xs = sorted(draw(st.lists(fl(-3.0, 3.0), min_size=n - 1, max_size=n - 1)))
+    xs = [x + 0.35 * i for i, x in enumerate(xs)]
+    ys = [draw(st.one_of(fl(0.3, 2.5), st.just(0.0))) for _ in range(n - 1)]
+    if draw(st.booleans()):
+        xs, ys = xs[::-1], ys[::-1]
+    return dict(n=n, xs=xs, ys=ys, pos=draw(st.integers(0, n - 1)), fig=draw(FIG),
+                scale=[draw(gen.scalars_pm()) for _ in range(n)], style=draw(STYLE))
+
+
+def body_inf_vertex(case, ctx):
+    n, pos = case["n"], case["pos"]
+    fin = [np.array([x, y]) for x, y in zip(case["xs"], case["ys"])]
+    verts = fin[:pos] + [None] + fin[pos:]
+    rows = []
+    for v, sc in zip(verts, case["scale"]):
+        if v is None:
+            r = np.array([1.0, 1.0, 0.0])          # Poincare (1, 0): the point at infinity
+        else:
+            k = D.from_model(v, "halfspace") if v[1] > 0 else None
+            if k is None:
+                pc = H.halfspace_to_poincare(np.array([v[0], 0.0]))
+                pc = pc / np.linalg.norm(pc)
+                r = np.array([1.0, pc[0], pc[1]])
+            else:
+                r = np.array([1.0, k[0], k[1]])
+        rows.append(r * sc)
+    poly = hyperbolic.Polygon(np.array(rows))
+    ctx.label("n=%d" % n, "infinity-at=%d" % pos,
+              "ideal-finite-vertices" if any(y == 0 for y in case["ys"]) else "")
+    with hyp_drawing(case, "halfspace") as d:
+        d.draw_polygon(poly, **case["style"])
+        patches = [pp for pp in d.ax.patches]
+        paths = [(np.array(pp.get_path().vertices, dtype=float), pp.get_path().codes)
+                 for pp in patches]
+        top = float(d.ylim[1])
+        width = float(d.xlim[1] - d.xlim[0])
+    ctx.check(len(paths) == 1, "one patch for the polygon", patches=len(paths))
+    V, C = paths[0]
+    ctx.check(C is not None and int(C[0]) == D.MOVETO and list(C).count(D.MOVETO) == 1,
+              "one continuous outline (a single MOVETO)")
+    # sample the outline piece by piece (own Bezier evaluation)
+    pieces = []
+    cur, i = V[0], 1
+    Cl = [int(c) for c in C]
+    while i < len(V):
+        if Cl[i] == D.LINETO:
+            t = np.linspace(0, 1, 17)[:, None]
+            pieces.append(cur * (1 - t) + V[i] * t)
+            cur = V[i]
+            i += 1
+        elif Cl[i] == D.CURVE4:
+            pieces.append(D.bezier_points(np.array([cur, V[i], V[i + 1], V[i + 2]]), per=16))
+            cur = V[i + 2]
+            i += 3
+        elif Cl[i] == D.CLOSEPOLY:
+            i += 1
+        else:
+            ctx.fail("unexpected path code", code=Cl[i])
+    # every visible sampled point lies on an edge of the polygon: a vertical ray above the
+    # finite neighbour of the vertex at infinity, or the half-circle arc between two finite
+    # vertices (centre on the real axis), between their abscissae
+    # ideal vertices are located through a square root of a rounding error (1e-8 in the
+    # disc), amplified by the Cayley map like 1 + x^2: positions are compared to 1e-6 (1 + x^2)
+    xmax = max(abs(f[0]) for f in fin)
+    slack = (1.0 + xmax * xmax) * (10.0 if any(y == 0 for y in case["ys"]) else 1.0)
+
+    def dist_to_edges(pt):
+        best = np.inf
+        for a in range(n):
+            va, vb = verts[a], verts[(a + 1) % n]
+            if va is None or vb is None:
+                f = vb if va is None else va
+                dd = (abs(pt[0] - f[0]) if pt[1] >= f[1] - 1e-6 * slack else
+                      np.hypot(pt[0] - f[0], pt[1] - f[1])) / slack
+            else:
+                cx = (vb @ vb - va @ va) / (2 * (vb[0] - va[0]))
+                r = np.hypot(va[0] - cx, va[1])
+                lo, hi = min(va[0], vb[0]), max(va[0], vb[0])
+                if lo - 1e-6 * slack <= pt[0] <= hi + 1e-6 * slack:
+                    # (cubic Bezier approximation of an arc of at most a quarter turn per
+                    # cubic: D.bezier_arc_error(r, pi/2) = 3.8e-3 r)
+                    dd = abs(np.hypot(pt[0] - cx, pt[1]) - r) / D.bezier_arc_error(
+                        r, math.pi / 2) * 1e-6 / slack
+                else:
+                    dd = np.inf
+            best = min(best, dd)
+        return best
+    worst = 0.0
+    nvis = 0
+    for pc in pieces:
+        for pt in pc:
+            if pt[1] >= top or not np.all(np.isfinite(pt)):
+                continue        # the join of the two rays, off screen
+            nvis += 1
+            worst = max(worst, dist_to_edges(pt))
+    ctx.check(nvis >= 8 * (n - 1), "the visible outline is sampled", visible=nvis)
+    ctx.small("every visible point of the outline lies on an edge of the polygon", worst, 1e-6,
+              top=top)
+    # the finite vertices are visited, in order (cyclically, either direction of storage)
+    knots = [pc[0] for pc in pieces] + [pieces[-1][-1]]
+    order = []
+    for f in fin:
+        dk = [np.hypot(*(k_ - f)) for k_ in knots]
+        ctx.small("a finite vertex is a knot of the outline", min(dk), 1e-6 * slack)
+        order.append(int(np.argmin(dk)))
+    cyc = fin[pos:] + fin[:pos]
+    idx = [int(np.argmin([np.hypot(*(k_ - f)) for k_ in knots])) for f in cyc]
+    rot_ok = any(sorted(idx) == idx[r:] + idx[:r] for r in range(len(idx)))
+    ctx.check(rot_ok, "finite vertices are visited in the polygon's cyclic order", knots=idx)
+
+
 def nt_polygon(labels):
     if "judged" not in labels:
         return False
@@ -1187,6 +1305,140 @@ def body_projective(case, ctx):
             ctx.close("polygon closes at the first vertex", V[n], want[k][0], rtol=0, atol=tol)
 
 
+# ---------------------------------------------------------------------------
+# law: projective polygons that cross the line at infinity of the standard chart
+@st.composite
+def nonaffine_case(draw):
+    count = draw(st.integers(1, 3))
+    prog = draw(program(proj_matrix()))
+    M = D.run_program(prog)
+    Minv = np.linalg.inv(M)
+    polys = []
+    for _ in range(count):
+        n = draw(st.integers(3, 7))
+        crossing = draw(st.sampled_from([True, True, False]))
+        # displayed vertices: affine coordinates in the window, sign of the homogeneous
+        # coordinate 0 in two cyclic runs (+ ... + - ... -) for a polygon that crosses infinity
+        # (distinct by construction: radii 1..4 at angles spread around the circle, so no
+        # edge is degenerate and every far point has a direction)
+        th0 = draw(fl(0.0, 2 * math.pi))
+        cx0, cy0 = draw(fl(-1.0, 1.0)), draw(fl(-1.0, 1.0))
+        aff = np.array([[cx0 + r * math.cos(t), cy0 + r * math.sin(t)] for r, t in (
+            (draw(fl(1.0, 4.0)), th0 + 2 * math.pi * (i + draw(fl(-0.3, 0.3))) / n)
+            for i in range(n))])
+        mag = np.array([draw(fl(0.3, 3.0)) for _ in range(n)])
+        if crossing:
+            a = draw(st.integers(1, n - 1))
+            rot = draw(st.integers(0, n - 1))
+            sg = np.roll(np.array([1.0] * a + [-1.0] * (n - a)), rot)
+            if draw(st.booleans()):
+                sg = -sg
+        else:
+            sg = np.full(n, draw(st.sampled_from([1.0, -1.0])))
+        Y = np.concatenate([np.ones((n, 1)), aff], axis=-1) * (sg * mag)[:, None]
+        polys.append(dict(n=n, crossing=crossing, X=(Y @ Minv).tolist()))
+    # all polygons of a composite have the same number of vertices
+    n0 = polys[0]["n"]
+    polys = [p_ for p_ in polys if p_["n"] == n0]
+    fig = dict(draw(FIG))
+    return dict(prog=prog, polys=polys, fig=fig, single=len(polys) == 1 and draw(st.booleans()))
+
+
+def body_nonaffine(case, ctx):
+    M = D.run_program(case["prog"])
+    polys = case["polys"]
+    n = polys[0]["n"]
+    X = np.array([p_["X"] for p_ in polys], dtype=float)
+    Y = X @ M
+    ncross = sum(1 for p_ in polys if p_["crossing"])
+    ctx.label("crossing=%d" % ncross, "affine=%d" % (len(polys) - ncross), "n=%d" % n)
+    if not is_identity(M):
+        ctx.label("transform!=id")
+    # harness: the displayed sign pattern really is what the generator intended
+    for k, p_ in enumerate(polys):
+        sg = np.sign(Y[k][:, 0])
+        runs = int(np.sum(sg != np.roll(sg, 1)))
+        if runs != (2 if p_["crossing"] else 0) or np.min(np.abs(Y[k][:, 0])) < 1e-6 * np.max(
+                np.abs(Y[k])):
+            ctx.label("skipped:ill-conditioned-sign-pattern")
+            return
+    init = init_of(case["prog"])
+    kw = dict(chart_index=0)
+    if init is not None:
+        kw["transform"] = projective.Transformation(np.array(init, dtype=float))
+    with make_drawing(drawtools.ProjectiveDrawing, case["fig"], **kw) as d:
+        apply_program(d, case["prog"], projective.Transformation)
+        arg = X[0].copy() if case["single"] else X.copy()
+        d.draw_polygon(projective.Polygon(arg), assume_affine=False)
+        patches = [np.array(p_.get_xy(), dtype=float) for p_ in d.ax.patches]
+        colls = list(d.ax.collections)
+        paths = [np.array(pa.vertices, dtype=float) for c in colls for pa in c.get_paths()]
+        diam = float(d.view_diam())
+        ctr = np.asarray(d.view_ctr(), dtype=float)
+    cond = D_cond(M)
+    aff = Y[..., 1:] / Y[..., :1]
+    scale = 1.0 + float(np.max(np.abs(aff)))
+    tol = 1e-9 * scale * cond / max(float(np.min(np.abs(Y[..., 0]) / np.max(np.abs(Y), axis=-1))),
+                                    1e-6)
+    ctx.check(len(patches) == 2 * ncross, "two patches per polygon that crosses infinity",
+              patches=len(patches), crossing=ncross)
+    ctx.check(len(paths) == len(polys) - ncross, "one PolyCollection path per polygon inside "
+              "the chart", paths=len(paths), affine=len(polys) - ncross)
+    # affine ones: as in the ordinary route, in order
+    ai = 0
+    for k, p_ in enumerate(polys):
+        if p_["crossing"]:
+            continue
+        V = paths[ai]
+        ai += 1
+        ctx.close("polygon inside the chart: vertices = chart coordinates in order", V[:n],
+                  aff[k], rtol=0, atol=tol)
+    # crossing ones: each patch is a run of equal-sign vertices (chart coordinates, in cyclic
+    # order) closed by two far points on the rays in which the two crossing edges leave the
+    # window - on the line of the edge, beyond the finite vertex, outside the viewing circle
+    pi = 0
+    for k, p_ in enumerate(polys):
+        if not p_["crossing"]:
+            continue
+        sg = np.sign(Y[k][:, 0])
+        pieces = patches[pi:pi + 2]
+        pi += 2
+        seen = []
+        for V in pieces:
+            ctx.check(np.allclose(V[0], V[-1], atol=tol), "patch is closed")
+            V = V[:-1]
+            ctx.check(len(V) >= 3, "patch has a run and two far points", got=len(V))
+            run_len = len(V) - 2
+            # locate the run: the cyclic window of equal-sign vertices matching V[:run_len]
+            found = None
+            for start in range(n):
+                idx = [(start + t) % n for t in range(run_len)]
+                if len(set(sg[idx])) == 1 and sg[(start - 1) % n] != sg[start] and \
+                        sg[(start + run_len) % n] != sg[start] and \
+                        np.allclose(V[:run_len], aff[k][idx], atol=tol):
+                    found = idx
+            ctx.check(found is not None, "patch starts with a maximal run of equal-sign vertices "
+                      "at their chart coordinates, in cyclic order", patch=V, chart=aff[k],
+                      signs=sg)
+            seen.append(tuple(found))
+            last, first = found[-1], found[0]
+            nxt, prv = (last + 1) % n, (first - 1) % n
+            for (dpt, v, w, what) in ((V[run_len], aff[k][last], aff[k][nxt], "after the run"),
+                                      (V[run_len + 1], aff[k][first], aff[k][prv],
+                                       "before the run")):
+                e = v - w                       # the crossing edge leaves v away from w
+                ne = np.linalg.norm(e)
+                cr = abs(e[0] * (dpt - v)[1] - e[1] * (dpt - v)[0]) / ne
+                ctx.small("far point %s lies on the line of the crossing edge" % what, cr,
+                          1e-7 * scale * cond * (1 + diam))
+                ctx.check(np.dot(dpt - v, e) > 0, "far point %s lies beyond the finite vertex, "
+                          "away from the other endpoint" % what, far=dpt, v=v, w=w)
+                ctx.check(np.linalg.norm(dpt - ctr) >= diam * (1 - 1e-9), "far point %s is "
+                          "outside the viewing window" % what, far=dpt, diam=diam)
+        ctx.check(len(set(seen)) == 2 and sorted(i for r in seen for i in r) == list(range(n)),
+                  "the two patches share out all vertices of the polygon", runs=seen)
+
+
 def D_cond(M):
     M = np.asarray(M, float)
     return float(np.linalg.norm(M, 2) * np.linalg.norm(np.linalg.inv(M), 2))
@@ -1568,6 +1820,11 @@ LAWS = [
         quick=150, thorough=800, shards=(1, 4)),
     Law("projective_collections", projective_case(), body_projective,
         nt_transform_or_composite, quick=150, thorough=800, shards=(2, 4)),
+    Law("halfplane_polygon_with_vertex_at_infinity", inf_vertex_case(), body_inf_vertex,
+        lambda l: True, quick=100, thorough=700, shards=(1, 3)),
+    Law("projective_polygons_crossing_infinity", nonaffine_case(), body_nonaffine,
+        lambda l: "crossing=0" not in l and "skipped:ill-conditioned-sign-pattern" not in l,
+        quick=120, thorough=800, shards=(1, 3)),
     Law("horosphere_ellipses", horo_case(), body_horo, nt_transform_or_composite,
         quick=150, thorough=900, shards=(2, 6)),
     Law("wrong_dimension_rejected", wrongdim_case(), body_wrongdim, lambda l: True,
